@@ -749,11 +749,10 @@ def region_monitor(root, tabmap, spec, markers):
                         if x in spec and cond_markers(spec[x], inv) <= have:
                             return True
             if p.tag == 'ctedef':
+                # not (yet) under a policy filter: every reference to this cte must be
                 name = pn.name
                 if name in seen:
                     return True
-                if has_where(p):
-                    return False
                 return all(ok_from(r, t, seen | {name}) for r in refs.get(name, []))
         return False
 
